@@ -217,7 +217,9 @@ def compare(exp, obs, check_doc=True):
                 msgs.append(f"var-default: {where} expected {e['value']!r} observed {f.get('Default value')!r}")
         if e["kind"] == "option":
             f = dict(o["fields"])
-            if f.get("type") != "bool" or f.get("Default value") != e["default"] or f.get("Help text") != e["help"]:
+            # the help text may be shown with or without its surrounding quotes
+            if f.get("type") != "bool" or f.get("Default value") != e["default"] or \
+                    unquote_once(f.get("Help text") or "") != unquote_once(e["help"]):
                 msgs.append(f"option-fields: {where} expected help={e['help']!r} default={e['default']!r} bool; "
                             f"observed {o['fields']}")
     return msgs
